@@ -65,6 +65,9 @@ pub const PROBES: &[&str] = &[
     // two aliases of the column the relation is sorted by: which one names the final ORDER BY?
     "from t | sort a | derive {b2 = a, c2 = a} | select {b2, c2} | take 5",
     "from t | sort {a, -b} | derive {x = a, y = b, z = a} | select {z, y, x} | take 5 | filter x > 0",
+    // one sorted let-table read twice, its sort key dropped by its select: which instance carries the hidden key?
+    "let s = (from t | derive k = a * 2 | sort {-k} | select {a, b})\nfrom s | join s2 = s (s.a == s2.b) | select {s.a, s2.b} | take 4",
+    "let s = (from t | derive k = a * 2 | sort {-k} | select {a, b})\nfrom x = s | join y = s (x.a == y.b) | join z = s (x.a == z.b) | select {x.a, y.b, z.b} | take 4 | filter a > 0",
     // two / three unknown header options: error text
     "prql foo:1 bar:2\nfrom t",
     "prql zeta:\"z\" alpha:1 target:sql.sqlite mid:2\nfrom t",
